@@ -2,7 +2,7 @@
    call_builtin (Builtins.v) is the sequence model itself, extracted and compared with the crate call by call in both index-base
    configurations; the theorems below are the coherence facts of the statement over the model's own search / slicing functions. *)
 Require Import ZArith NArith Bool List Arith. Import ListNotations.
-Require Import F64 Dec Types Generic Lang Builtins BuiltinFacts TimeFacts IndexFacts SeqLaws CaseFacts GenUnicode GenBuiltins.
+Require Import F64 Dec Types Generic Lang Builtins BuiltinFacts TimeFacts IndexFacts SeqLaws CaseModel CaseFacts GenUnicode GenBuiltins.
 
 (* find returns a position where the needle occurs, the first such position, and fails only when there is none - every code point list *)
 Theorem C15_find_sound : forall n s i, find_sub n s = Some i -> firstn (length n) (skipn i s) = n /\ (i + length n <= length s)%nat.
@@ -85,10 +85,11 @@ Theorem C15_ascii_case : forall c, (c < 128)%N -> u_lower c = [lower_ascii c] /\
 Proof. exact ascii_case. Qed.
 Theorem C15_same_text_equivalence : (forall a, same_text_m a a = true) /\ (forall a b, same_text_m a b = same_text_m b a) /\ (forall a b c, same_text_m a b = true -> same_text_m b c = true -> same_text_m a c = true).
 Proof. exact same_text_equiv. Qed.
-Theorem C15_case_builtins : forall off a b, has_sigma a = false -> has_sigma b = false ->
+Theorem C15_case_builtins : forall off a b,
   call_builtin off (A [108;111;119;101;114;99;97;115;101]%Z) [VStr a] = BOk (VStr (lower_str a)) /\ call_builtin off (A [117;112;112;101;114;99;97;115;101]%Z) [VStr a] = BOk (VStr (upper_str a)) /\
   call_builtin off (A [115;97;109;101;95;116;101;120;116]%Z) [VStr a; VStr b] = BOk (VBool (same_text_m a b)).
-Proof. intros off a b Ha Hb. cbn [call_builtin A map leqb]. cbn. rewrite Ha, Hb. cbn. auto. Qed.
-Example C15_case_example : lower_str [304; 8490; 937]%N = [105; 775; 107; 969]%N /\ upper_str [223; 64257]%N = [83; 83; 70; 73]%N /\ same_text_m [8490]%N [107]%N = true /\ same_text_m [223]%N [115;115]%N = false.
-Proof. vm_compute. auto. Qed.
+Proof. intros off a b. repeat split; reflexivity. Qed.
+Example C15_case_example : lower_str [304; 8490; 937]%N = [105; 775; 107; 969]%N /\ upper_str [223; 64257]%N = [83; 83; 70; 73]%N /\ same_text_m [8490]%N [107]%N = true /\ same_text_m [223]%N [115;115]%N = false /\
+  lower_str [913; 931]%N = [945; 962]%N /\ lower_str [913; 931; 913]%N = [945; 963; 945]%N /\ lower_str [931]%N = [963]%N /\ lower_str [913; 931; 46; 32; 931]%N = [945; 962; 46; 32; 963]%N.
+Proof. vm_compute. repeat split; reflexivity. Qed.
 Print Assumptions C15_lowercase_idempotent. Print Assumptions C15_case_builtins.
